@@ -18,7 +18,7 @@ EXPLANATION = (
     'PWD/PACK split, default keys, FeliCa/Ultralight C byte order); R3 the expression that turns the password into the key '
     'is evaluated by the checker for several password values in the protect and the authenticate routine of each class and '
     'must agree; R4 write MAC uses the flipped key and the write counter, read MAC the session key and the same IV in '
-    'generation and verification.  Cryptographic soundness of generate_mac and detection of every modification are value '
+    'generation and verification; R5 the Read Without Encryption below the MAC readers accepts exactly 1 + 16 * blocks octets (folded over all request/response sizes), so the end-relative MAC slices are never empty.  Cryptographic soundness of generate_mac and detection of every modification are value '
     'level and not decided.')
 
 PASSWORDS = [b'', b'0123456789abcdefXYZ', b'\xff\xfe' + b'k' * 20, '0123456789abcdefXYZ']
@@ -216,11 +216,32 @@ def rule_mac_inputs(report, prog):
                  'IV differs between verification (%s) and session (%s)' % (ver, ivs))
 
 
+def rule_mac_present(report, prog):
+    """R5: the MAC comparisons slice the MAC and the covered data from the end of the response (data[-16:-8], data[0:-16]); they
+    compare something only if the response really carries every requested block including the MAC block.  The reader below
+    them must therefore accept exactly 1 + 16 * blocks octets (an empty block list would compare an empty MAC with the MAC of no
+    data, which is equal), and the MAC readers must reach it directly."""
+    from .c08buf import rwe_exact
+    rwe = prog.func('nfc.tag.tt3.Type3Tag.read_without_encryption')
+    report.check(rwe_exact(prog), 'C20-R5', key(rwe.qname, 'response carries exactly the requested blocks (MAC block included)'), rwe.loc(),
+                 'read_without_encryption accepts a response with fewer blocks than requested: the MAC slices in FelicaLite.authenticate / '
+                 'read_with_mac are then empty on both sides and the comparison succeeds without any key')
+    n = 0
+    for q in (SONY + '.FelicaLite.read_with_mac', SONY + '.FelicaLite.read_without_mac'):
+        f = prog.func(q)
+        cs = [c for c in calls(f.node) if norm(c.func) == 'self.read_without_encryption']
+        n += len(cs)
+        report.check(len(cs) == 1, 'C20-R5', key(q, 'blocks are read through read_without_encryption'), f.loc(),
+                     '%s no longer reads through the size-checked Read Without Encryption' % q)
+    report.floor('C20-R5', n, 2)
+
+
 def run(report, prog, tier):
     rule_dominance(report, prog)
     rule_slots(report, prog)
     rule_key_derivation(report, prog)
     rule_mac_inputs(report, prog)
+    rule_mac_present(report, prog)
     report.trusted += ['pyDes triple_des / CBC', 'FeliCa Lite(-S) and NTAG21x / Ultralight C authentication procedures as published by the vendors']
     report.assumptions += ['cryptographic strength and value-level tamper detection are not decided']
 
@@ -228,6 +249,7 @@ def run(report, prog, tier):
 S = 'nfc.tag.tt3_sony'
 N = 'nfc.tag.tt2_nxp'
 MUTANTS = [
+    ('tt3-read-accepts-fewer-blocks', 'nfc.tag.tt3', "        if len(data) != 1 + len(block_list) * 16:", "        if len(data) % 16 != 1:", 'C20-R5'),
     ('mac-check-negated', S, """        if mac != self.generate_mac(data, self._sk, self._iv):
             log.warning("mac verification failed")
         else:
